@@ -198,6 +198,8 @@ def refute_or_prove(e, extra=()):
     e = z3.simplify(e)
     if z3.is_true(e):
         return "proved", None
+    if z3.is_eq(e) and e.arg(0).sort() != z3.BoolSort() and poly_zero(e.arg(0) - e.arg(1)):
+        return "proved", None
     goal = z3.Not(e)
     r, m = check_sat(relevant(CTX.all_hyps() + list(extra), [goal]) + [goal])
     if r == "unsat":
